@@ -259,3 +259,15 @@ def selftest():
             for a in range(60):
                 assert jacobi(a, p * q) == jacobi(a, p) * jacobi(a, q)
     assert subb(-5, 0, 64) == (0, 5) and subb(3 - 5, 1, 64) == ((1 << 64) - 2, 1) and addc(7, 0, 64) == (0, 7)
+
+# classes of inputs (keys of violations group by them)
+def _cls_inv(v):
+    if v.a == 0: return 'a=0'
+    if math.gcd(v.a, v.mod) != 1: return 'gcd(a,mod)!=1'
+    return None
+for _n in ('zzInvMod', 'zzDivMod', 'zzAlmostInvMod'):
+    CAT[_n].cls = _cls_inv
+CAT['zzJacobi'].cls = lambda v: 'n<m' if v.n < v.m else None
+CAT['zzPowerModW'].cls = lambda v: 'a>=mod' if v.a >= v.mod else ('mod=1' if v.mod == 1 else None)
+CAT['zzSubW'].cls = CAT['zzSubW2'].cls = lambda v: 'n=0' if v.n == 0 else None
+CAT['zzExGCD'].cls = lambda v: 'a|b or b|a' if v.a % v.b == 0 or v.b % v.a == 0 else None
